@@ -22,6 +22,11 @@ void vf::c14_case(Ctx &c) {
   TpdoCfg tc = add_tpdo(w, tp, 0xC0000000u | tbase, 254, 0, 0, {}, nsub);
   RpdoCfg rc = add_rpdo(w, rp, 0x80000000u | rbase, 254, {}, nsub);
   add_sync(w, 0x80, 0);
+  // mode with-witness-tpdo (param 2): a second TPDO on another channel, valid, event-driven, mapping an asynchronous object of its own - nobody reconfigures it,
+  // so whatever a client does to the first one, it is sent exactly when its object changes in OPERATIONAL and answers no SYNC
+  const bool wit = c.param == 2; int tw = -1; uint32_t wbase = 0; int wit_probes = 0;
+  if (wit) { tw = (tp + 1 + (int)c.t.below(CO_TPDO_N - 1)) % CO_TPDO_N; wbase = 0x180u + 0x100u * (uint32_t)tw + s.nodeid;
+    w.add_int(0x2100, 7, 1, false, false, true, true, 0x77, true, true); add_tpdo(w, tw, 0x40000000u | wbase, 254, 0, 0, {MAPENT(0x2100, 7, 8)}, 1); }
   w.finish();
   TObj *ob[6]; for (int i = 0; i < 6; i++) ob[i] = w.lookup(0x2100, OB[i].sub);
   SdoClient cl(s, w.req[0], w.rsp[0]);
@@ -54,8 +59,8 @@ void vf::c14_case(Ctx &c) {
   while (!c.t.exhausted() && steps < (c.thorough ? 140 : 70)) {
     steps++; c.ops++;
     int k = (int)c.t.below(2); uint16_t com = (uint16_t)(k ? 0x1400 + rp : 0x1800 + tp), mp = (uint16_t)(k ? 0x1600 + rp : 0x1A00 + tp);
-    static const uint16_t W[9] = {22, 8, 22, 30, 8, 6, 6, 8, 6}, WI[10] = {22, 10, 16, 22, 8, 10, 4, 14, 8, 6};
-    uint32_t op = winh ? c.t.weighted(WI) : c.t.weighted(W);
+    static const uint16_t W[9] = {22, 8, 22, 30, 8, 6, 6, 8, 6}, WI[10] = {22, 10, 16, 22, 8, 10, 4, 14, 8, 6}, WW[11] = {22, 10, 18, 24, 8, 6, 4, 10, 4, 0, 14};
+    uint32_t op = wit ? c.t.weighted(WW) : winh ? c.t.weighted(WI) : c.t.weighted(W);
     if (winh && k == 1 && op <= 3 && c.t.chance(150)) k = 0, com = (uint16_t)(0x1800 + tp), mp = (uint16_t)(0x1A00 + tp);   // this mode is about the TPDO
     s.clear_tx();
     if (op == 0) {        // COB-ID
@@ -118,6 +123,13 @@ void vf::c14_case(Ctx &c) {
       VLOG(c, "TPDO %s time := %u -> %08X", ev ? "event" : "inhibit", v, code);
       if (code == 0) timing_written = true;
       if (*tc.inhibit != 0) inh_seen = true;
+    } else if (op == 10) { // mode with-witness-tpdo: the witness TPDO's asynchronous object changes
+      TObj *wo = w.lookup(0x2100, 7); uint8_t nv = (uint8_t)(wo->store[0] + 1 + c.t.below(200));
+      s.clear_tx(); s.api_begin(); CODictWrByte(&s.node->Dict, CO_DEV(0x2100, 7), nv); s.api_end("CODictWrByte");
+      int e = mode == 3 ? 1 : 0; VLOG(c, "probe: the witness TPDO's object := %02X -> %zu frame(s)", nv, s.tx.size());
+      CHECK(c, (int)s.tx.size() == e, "takes-effect-as-stored", "the asynchronous object of the untouched TPDO %d (COB-ID %03X) changed in mode %d: %zu frame(s), expected %d", tw, wbase, mode, s.tx.size(), e);
+      if (e) CHECK(c, s.tx[0].id == wbase && s.tx[0].dlc == 1 && s.tx[0].d[0] == nv, "takes-effect-as-stored", "the untouched TPDO %d sent %s, expected %03X [1] %02X", tw, s.tx[0].str().c_str(), wbase, nv);
+      s.clear_tx(); wit_probes++;
     } else if (op == 9) { // mode with-inhibit: 6 ticks pass (every inhibit time of this mode ends, no event time is reached): a transmission that was held back may go out
       if (tickops >= 12) continue; tickops++;
       for (int i = 0; i < 6; i++) s.step_tick();
@@ -161,7 +173,7 @@ void vf::c14_case(Ctx &c) {
     stored_equal();
   }
   if (accepted && refused && activated_after) c.nontrivial = true;
-  if (accepted && refused) c.cls("accepted-and-refused-writes"); if (activated_after) c.cls("activation-after-reconfiguration"); if (sync_probed) c.cls("sync-probe"); if (timing_written) c.cls("event-or-inhibit-time-written"); if (inh_holds) c.cls("transmission-requested-while-an-inhibit-time-may-be-running");
+  if (accepted && refused) c.cls("accepted-and-refused-writes"); if (activated_after) c.cls("activation-after-reconfiguration"); if (sync_probed) c.cls("sync-probe"); if (timing_written) c.cls("event-or-inhibit-time-written"); if (inh_holds) c.cls("transmission-requested-while-an-inhibit-time-may-be-running"); if (wit_probes) c.cls("untouched-second-tpdo-probed");
 }
 
 namespace {
@@ -172,9 +184,11 @@ Registrar reg(Prop{
     "(valid/invalid bit, id change, EXT and RTR bits, types, counts 0..9, entries naming existing / absent index / absent sub-index / non-mappable / wrong-access objects with lengths 8..64 bit), interleaved with writes of the TPDO's event time and inhibit time (:= 0), NMT start / pre-operational and activation probes (trigger the TPDO, send the RPDO frame, send a SYNC). "
     "Oracle: rule model: accepted only under the CiA 301 preconditions of the statement, abort code 0604 0041h / 0604 0042h where the reason is named (otherwise any abort), every refused write leaves all stored values unchanged, clearly allowed writes are accepted, "
     "invariant at each activation (<= 8 mapped bytes, all targets exist), and the activated PDO behaves exactly as the stored configuration (frame identifier/DLC/content, RPDO effect via full snapshot, a synchronous TPDO of type n answers every n-th SYNC since its activation and an event-driven or invalid one none). Mode with-inhibit: the inhibit time is written with 0..5 ms for any transmission type and groups of 6 ticks may pass; a transmission requested while an inhibit time may be running may be sent or held back (at most one frame then goes out when time passes), every other expectation stands - in particular a TPDO that is event-driven or invalid as stored answers no SYNC. "
+    "Mode with-witness-tpdo: a second, valid, event-driven TPDO on another channel maps an asynchronous object of its own and is never reconfigured: whatever a client does to the first one, it is sent exactly when its object changes in OPERATIONAL (and the SYNC and trigger probes still see only what the first one owes). "
     "Non-trivial: >= 1 accepted and >= 1 refused write and an activation after them. Distinct = distinct decoded choice sequence.",
     {Mode{"random", vf::c14_case, false, 1000000, 20000000, 0, 0, 300, 600},
-     Mode{"with-inhibit", vf::c14_case, false, 400000, 8000000, 1, 1, 300, 600}},
+     Mode{"with-inhibit", vf::c14_case, false, 400000, 8000000, 1, 1, 300, 600},
+     Mode{"with-witness-tpdo", vf::c14_case, false, 400000, 8000000, 2, 2, 300, 600}},
     {"a valid->valid COB-ID write with the identical value may be refused or accepted", "the length field of a mapping entry is not checked against the object width by the statement; activation probes are evaluated for width-consistent mappings only",
      "a refusal whose reason the statement does not name may carry any abort code"}});
 
